@@ -448,7 +448,10 @@ int kalign_arr_to_msa(char** input_sequences, int* len, int numseq,struct msa** 
         msa->numseq = numseq;
         msa->num_profiles = 0;
         msa->L = ALPHA_UNDEFINED;
+        msa->biotype = ALN_BIOTYPE_UNDEF;
         msa->aligned = 0;
+        msa->alnlen = 0;
+        msa->run_parallel = 0;
         msa->plen = NULL;
         msa->sip = NULL;
         msa->nsip = NULL;
@@ -472,6 +475,9 @@ int kalign_arr_to_msa(char** input_sequences, int* len, int numseq,struct msa** 
                 seq->alloc_len = len[i]+1;
 
                 MMALLOC(seq->name, sizeof(char)* MSA_NAME_LEN);
+                /* the caller gives no names: number the sequences (the name breaks ties in the canonical order) */
+                snprintf(seq->name, MSA_NAME_LEN, "SEQ%d", i+1);
+                seq->rank = i;
 
                 MMALLOC(seq->seq, sizeof(char) * seq->alloc_len);
                 MMALLOC(seq->s, sizeof(uint8_t) * seq->alloc_len);
